@@ -343,11 +343,15 @@ class Handlers:
                         todo.append((target, node.attr))
         return seen
 
-    def component_calls(self, fn, roles):
-        """(role, method, lineno) for every call <...>.<role>.<method>(...) in fn"""
+    def component_calls(self, fn, roles, known_methods=None):
+        """(role, method, lineno) for every call <...>.<role>.<method>(...) in fn, and - when `known_methods` (role -> method names) is given -
+        for every mere reference <...>.<role>.<method> to a known method: bound methods are handed to asyncio.to_thread / run_in_executor /
+        partial as values and run all the same"""
         out = []
+        called = set()
         for node in ast.walk(fn):
             if isinstance(node, ast.Call) and isinstance(node.func, ast.Attribute):
+                called.add(id(node.func))
                 chain = []
                 cur = node.func
                 while isinstance(cur, ast.Attribute):
@@ -358,6 +362,92 @@ class Handlers:
                     if part in roles:
                         out.append((part, chain[i + 1], node.lineno))
                         break
+        if known_methods:
+            for node in ast.walk(fn):
+                if isinstance(node, ast.Attribute) and isinstance(node.ctx, ast.Load) and id(node) not in called and isinstance(node.value, ast.Attribute) \
+                        and node.value.attr in roles and node.attr in known_methods.get(node.value.attr, ()):
+                    out.append((node.value.attr, node.attr, node.lineno))
+        return out
+
+    # ---- values handed out by a backend read must not be edited by a view (they may be the stored or cached object itself)
+    def mutated_params(self, fn):
+        """names of the parameters that fn edits in place (del p[..], p[..] = .., p.append(..), p += ..)"""
+        params = {a.arg for a in fn.args.args + fn.args.kwonlyargs}
+        out = set()
+        for node in ast.walk(fn):
+            tgt = None
+            if isinstance(node, ast.Delete):
+                for t in node.targets:
+                    if isinstance(t, ast.Subscript) and isinstance(t.value, ast.Name):
+                        out.add(t.value.id)
+            elif isinstance(node, ast.Assign):
+                for t in node.targets:
+                    if isinstance(t, ast.Subscript) and isinstance(t.value, ast.Name):
+                        out.add(t.value.id)
+            elif isinstance(node, ast.AugAssign) and isinstance(node.target, ast.Name):
+                tgt = node.target.id
+            elif isinstance(node, ast.Call) and isinstance(node.func, ast.Attribute) and isinstance(node.func.value, ast.Name) and node.func.attr in MUTATORS:
+                tgt = node.func.value.id
+            if tgt:
+                out.add(tgt)
+        return out & params, out
+
+    def edits_of_backend_values(self, fn, module, roles):
+        """[(description, lineno)] where fn edits, or hands to a package function that edits its parameter, a value it got from a backend read"""
+        def role_chain(node):
+            while isinstance(node, ast.Attribute):
+                if isinstance(node.value, ast.Attribute) and node.value.attr in roles:
+                    return f"{node.value.attr}.{node.attr}"
+                node = node.value
+            return None
+
+        def from_backend(value):
+            """source name when the expression IS what a backend read returned (not a copy made by list(..), a slice, a comprehension, ...)"""
+            if isinstance(value, ast.Await):
+                value = value.value
+            if isinstance(value, ast.Call):
+                if isinstance(value.func, ast.Attribute):
+                    src = role_chain(value.func)
+                    if src:
+                        return src
+                    if value.func.attr in ("to_thread", "run_in_executor") and value.args:
+                        for a in value.args[:2]:
+                            src = role_chain(a) if isinstance(a, ast.Attribute) else None
+                            if src:
+                                return src
+                return None
+            if isinstance(value, ast.Attribute) and value.attr in ("result",) and not (isinstance(value.value, ast.Name) and value.value.id == "self"):
+                return f".{value.attr}"
+            return None
+        tainted = {}
+        for node in ast.walk(fn):
+            if isinstance(node, (ast.Assign, ast.AnnAssign)) and getattr(node, "value", None) is not None:
+                src = from_backend(node.value)
+                if src:
+                    for t in (node.targets if isinstance(node, ast.Assign) else [node.target]):
+                        if isinstance(t, ast.Name):
+                            tainted[t.id] = src
+        out = []
+        _own, edited_here = self.mutated_params(fn)
+        for name in sorted(set(tainted) & edited_here):
+            out.append((f"edits `{name}`, a value handed out by {tainted[name]}", fn.lineno))
+        mod = self.src.module(module)
+        for node in ast.walk(fn):
+            if isinstance(node, ast.Call):
+                target = None
+                if isinstance(node.func, ast.Name):
+                    if (module, node.func.id) in self.funcs:
+                        target = (module, node.func.id)
+                    elif node.func.id in mod.imports and mod.imports[node.func.id][1] and tuple(mod.imports[node.func.id]) in self.funcs:
+                        target = tuple(mod.imports[node.func.id])
+                if target is None:
+                    continue
+                callee = self.funcs[target]
+                mp, _ = self.mutated_params(callee)
+                names = [a.arg for a in callee.args.args]
+                for i, a in enumerate(node.args):
+                    if isinstance(a, ast.Name) and a.id in tainted and i < len(names) and names[i] in mp:
+                        out.append((f"passes `{a.id}` (handed out by {tainted[a.id]}) to {target[1]}(), which edits its parameter `{names[i]}` in place", node.lineno))
         return out
 
 
